@@ -252,6 +252,9 @@ class GeneralThermodynamics:
         else:
             raise Exception('Driving force method must be either \'approximate\', \'sampling\', \'tangent\' or \'curvature\'')
 
+        #Cached composition sets are laid out differently for each method, so they cannot be reused after a switch
+        self._compset_cache_df = {}
+
     def setDFSamplingDensity(self, density):
         '''
         Sets sampling density for sampling method in driving
